@@ -43,6 +43,8 @@ type c17Manifest struct {
 	EmptySec bool      `json:"emptySec"` // write empty sections as {} instead of omitting them
 	Via      string    `json:"via"`      // bytes | reader | file
 	Edits    []c17Edit `json:"edits"`
+	// Form: the written form of the body (c17_form.go); nil: what yaml.Marshal gives
+	Form *c17Form `json:"form,omitempty"`
 }
 
 type c17Emb struct {
@@ -97,12 +99,13 @@ type c17B64 struct {
 
 func init() {
 	register(&Prop{ID: "C17", Run: c17Run,
-		Rule: "manifest: Secret/ConfigMap with generated metadata/extra fields (incl. the other kind's section names), 0-5 text items (strings: multi-line, unicode, numeric-looking, YAML-special; and non-string scalars) and 0-4 binary items (0-40 arbitrary bytes, incl. empty), serialised with yaml.v3, loaded through ManifestFromBytes/Reader/File, written, reloaded, then 0-8 Update/Remove edits on both facades, written and reloaded again. embedded: a YAML/JSON document embedded in an item (or absent), or properties spread over the string items, opened through k8s.YamlDoc/JsonDoc/Properties or NewBuilder()...Open()/Create() on a temp file, then 1-4 rounds of (0-6 edits, Save through the SAME Document handle, reopen and compare), in a third of the cases with a second manifest of either kind alive that is written and reloaded after every Save. Edits: AddValueAt / RemoveAt on the root builder, and (4 in 9, never by the same route twice in a row) calls through NESTED HANDLES the history holds - AddValue / Remove / AddContainer+AddValue / AddList+Append / AddValue of a leaf object the container already holds (one instance at two positions) on a nested container, Append / Set / MustSet(in range) / Clear on a nested list, the handle obtained by Lookup, by a chain of Child calls, or retained since the document was opened / an earlier round / returned by AddContainer or AddList (used only while Lookup still finds that very node there). Before and after every edit and around every Save the document is read through every read API (walk of Children/Items/Value, Flatten twice, Lookup of every flattened and composite path, Search for every leaf value, AsMap, Serialize as YAML and JSON, Clone, Equals, a sealed view taken at the start, every held handle's own walk / Flatten / AsMap / Items / Size / AsSlice): all must agree with the walk, with a freshly built document of the same content, with a plain-tree edit of the previous content (nested edits), and the maps returned by an earlier Flatten / AsMap must not change; what a properties Save must persist is the flattening of the WALKED document. savefault: the embedded histories again, with at least one round whose Save fails in the embedded-document encoder (a +Inf/-Inf/NaN float leaf put into a JsonDoc document; a user-supplied encoder given to NewBuilder().Encoder(...) that returns an error before or after doing the standard encoder's work), attempted 1-3 times: after every failed Save the file is read back and must still be the previous manifest (loads, same item maps, same fields outside the data sections, embedded document reopens as last saved); the cause is then repaired and the same handle saves, with the usual clauses. interleave: 2-3 manifests of either kind alive at once, a random schedule of load / Update / Remove / write(+reload) steps over them, every write compared with that manifest's own expected items, sections and non-data fields, every step followed by a look at the items of all alive manifests. entry (direct predicates only): one manifest body of an exact size - natural, or just under / at / just over / well over 512 B, 4 KiB, 64 KiB, 1 MiB, the bulk being one long text item, many text items, one long binary item or a long field outside the data sections, optionally multi-byte UTF-8 with a character across the threshold offset - loaded through ManifestFromBytes, ManifestFromFile and ManifestFromReader (reader handing the bytes out whole / in chunks of 1 B ... 1 MiB / one by one / last chunk together with io.EOF, preceded by 0-2 readers failing after 0 ... n-1 bytes that must yield an error and no manifest): the three show the generated items and the same items, WriteTo (on the reader-loaded one preceded by 0-2 writers failing part-way, which must be reported) gives byte-identical bodies that reload through the reader entry point with the same items and the same non-data fields, also after 0-3 facade edits. malformed: YAML assembled from pools of bad kinds / sections / values. b64: random bytes and mutated encodings against encoding/base64. A manifest case is non-trivial when it has at least one item; an embedded case when it has at least one edit; a savefault case when at least one Save failed; an entry case when it has at least one item; an interleave case when two manifests with at least one item between them are alive at a write; distinct = distinct canonical case JSON.",
+		Rule: "manifest: Secret/ConfigMap with generated metadata/extra fields (incl. the other kind's section names), 0-5 text items (strings: multi-line, unicode, numeric-looking, YAML-special; and non-string scalars) and 0-4 binary items (0-40 arbitrary bytes, incl. empty), serialised with yaml.v3, loaded through ManifestFromBytes/Reader/File, written, reloaded, then 0-8 Update/Remove edits on both facades, written and reloaded again. embedded: a YAML/JSON document embedded in an item (or absent), or properties spread over the string items, opened through k8s.YamlDoc/JsonDoc/Properties or NewBuilder()...Open()/Create() on a temp file, then 1-4 rounds of (0-6 edits, Save through the SAME Document handle, reopen and compare), in a third of the cases with a second manifest of either kind alive that is written and reloaded after every Save. Edits: AddValueAt / RemoveAt on the root builder, and (4 in 9, never by the same route twice in a row) calls through NESTED HANDLES the history holds - AddValue / Remove / AddContainer+AddValue / AddList+Append / AddValue of a leaf object the container already holds (one instance at two positions) on a nested container, Append / Set / MustSet(in range) / Clear on a nested list, the handle obtained by Lookup, by a chain of Child calls, or retained since the document was opened / an earlier round / returned by AddContainer or AddList (used only while Lookup still finds that very node there). Before and after every edit and around every Save the document is read through every read API (walk of Children/Items/Value, Flatten twice, Lookup of every flattened and composite path, Search for every leaf value, AsMap, Serialize as YAML and JSON, Clone, Equals, a sealed view taken at the start, every held handle's own walk / Flatten / AsMap / Items / Size / AsSlice): all must agree with the walk, with a freshly built document of the same content, with a plain-tree edit of the previous content (nested edits), and the maps returned by an earlier Flatten / AsMap must not change; what a properties Save must persist is the flattening of the WALKED document. savefault: the embedded histories again, with at least one round whose Save fails in the embedded-document encoder (a +Inf/-Inf/NaN float leaf put into a JsonDoc document; a user-supplied encoder given to NewBuilder().Encoder(...) that returns an error before or after doing the standard encoder's work), attempted 1-3 times: after every failed Save the file is read back and must still be the previous manifest (loads, same item maps, same fields outside the data sections, embedded document reopens as last saved); the cause is then repaired and the same handle saves, with the usual clauses. interleave: 2-3 manifests of either kind alive at once, a random schedule of load / Update / Remove / write(+reload) steps over them, every write compared with that manifest's own expected items, sections and non-data fields, every step followed by a look at the items of all alive manifests. entry (direct predicates only): one manifest body of an exact size - natural, or just under / at / just over / well over 512 B, 4 KiB, 64 KiB, 1 MiB, the bulk being one long text item, many text items, one long binary item or a long field outside the data sections, optionally multi-byte UTF-8 with a character across the threshold offset - loaded through ManifestFromBytes, ManifestFromFile and ManifestFromReader (reader handing the bytes out whole / in chunks of 1 B ... 1 MiB / one by one / last chunk together with io.EOF, preceded by 0-2 readers failing after 0 ... n-1 bytes that must yield an error and no manifest): the three show the generated items and the same items, WriteTo (on the reader-loaded one preceded by 0-2 writers failing part-way, which must be reported) gives byte-identical bodies that reload through the reader entry point with the same items and the same non-data fields, also after 0-3 facade edits. WRITTEN FORM (c17_form.go): a third of the manifest cases are not yaml.Marshal output but written the way people and tools write manifests, rendered by yaml.v3's emitter from a styled node tree: base64 text of a binary item on one line, ended by a line break (block scalar `|` with the default chomping), wrapped at 64 / 76 (PEM / MIME / `base64 -w`) or 1-20 columns with LF or CRLF breaks, with or without the final line break, with a line break in front, as literal / folded block or single- / double-quoted scalar; string text items as literal / folded / quoted scalars; quoted item keys; sections as flow mappings; comments; CRLF line ends of the file - item lengths include 47-50, 56-59, 100, 101 bytes so that 64 / 76-column wrapping occurs with every length mod 3. One manifest case in three takes its item keys from a wide pool (letter-case twins, white space, Unicode composition twins, supplementary-plane characters, U+FFFD, YAML indicators, number / boolean / null spellings and long digit strings as STRING keys, the empty key). String values include white-space-only / CRLF / NBSP strings, supplementary-plane characters, U+FFFD, digit strings at 2^53 / 2^63 / 2^64, signed zeros, YAML 1.1 / 1.2 number and boolean spellings and YAML indicators (all pre-filtered by a yaml.v3 round trip). malformed: YAML assembled from pools of bad kinds / sections / values. b64: random bytes and mutated encodings against encoding/base64. A manifest case is non-trivial when it has at least one item; an embedded case when it has at least one edit; a savefault case when at least one Save failed; an entry case when it has at least one item; an interleave case when two manifests with at least one item between them are alive at a write; distinct = distinct canonical case JSON.",
 		Assumptions: []string{
 			"yaml.v3 round-trips the generated manifest bodies (strings are pre-filtered by an independent Marshal/Unmarshal round trip; no timestamps, no NaN)",
 			"embedded YAML documents hold int/string/bool/null scalars, embedded JSON documents string/bool/float64/null scalars (the codecs' number normalisation is C01's concern); keys are path-safe",
 			"embedded properties are compared as flattened key/value maps with values stringified by %v (what a properties file can hold)",
-			"the model's embedded text codec is the finite table of (document, text) pairs observed on the implementation"}})
+			"the model's embedded text codec is the finite table of (document, text) pairs observed on the implementation",
+			"base64 text of a binary item is standard padded base64 in which CR / LF line breaks may stand anywhere (RFC 2045 wrapping, `base64` output, block scalars; what encoding/base64.StdEncoding ignores and the model's b64dec drops) - never spaces or tabs; a written form is used only when yaml.v3 reads it back as the intended root map and item strings (yaml.v3's emitter cannot write a block scalar starting with an empty line: such text is quoted)"}})
 	evals["C17"] = c17Eval
 	shrinkers["C17"] = c17Shrink
 }
@@ -121,6 +124,9 @@ func c17Shrink(kind string, raw []byte) [][]byte {
 			}
 		}
 	}
+	if kind == "manifest" {
+		out = append(out, c17ShrinkForm(raw)...)
+	}
 	return append(out, shrinkJSON(kind, raw)...)
 }
 
@@ -129,7 +135,14 @@ var c17PropKeys = []string{"a", "a.b", "a.k", "c", "d.e.f", "l[0]", "l[1]", "srv
 
 var c17StringPool = []string{"", "s", "plain text", "line1\nline2\n", "line1\nline2", "\nlead", "trail \n", "héllo ✓ 日本語",
 	"123", "1.5", "-7", "0x1f", "1e3", "true", "null", "~", "no", "2001-12-14", " lead", "trail ", "a: b", "# c", "- x",
-	"'q'", "\"dq\"", "tab\there", "{x: 1}", "[1, 2]", "k=v\nk2=v2\n", strings.Repeat("long ", 30), "%v", "|", ">-", "a\n\n\nb", "::"}
+	"'q'", "\"dq\"", "tab\there", "{x: 1}", "[1, 2]", "k=v\nk2=v2\n", strings.Repeat("long ", 30), "%v", "|", ">-", "a\n\n\nb", "::",
+	// round 5: white space only / CRLF / NBSP, supplementary-plane characters and U+FFFD, digit strings at the
+	// 2^53 / 2^63 / 2^64 boundaries, signed zeros, number and boolean spellings of YAML 1.1 and 1.2, YAML indicators
+	" ", "\t", "\n", "\r\n", "crlf\r\nline\r\n", "\u00a0", "nb\u00a0sp", "\U0001F680", "\U0001D6FC\u03b2", "\ufffd", "e\u0301", "\u00e9",
+	"9007199254740993", "9223372036854775807", "9223372036854775808", "18446744073709551615", "18446744073709551616",
+	"123456789012345678901234", "-0", "-0.0", "+1", ".5", "5.", "0o17", "017", "0b1", "1_000", ".inf", "-.Inf", ".NaN", "1:30",
+	"True", "TRUE", "False", "y", "Y", "n", "on", "Off", "t", "T", "f", "F", "0", "1", "Null", "NULL", "nil",
+	"=", "<<", "---", "...", "--- x", "!!str x", "&a x", "*a", "? k", "@at", "`bt", "%TAG", "a #b", "a: ", "- ", "k:\tv", "\\n", "\\"}
 
 func c17YamlStable(s string) bool {
 	b, err := yaml.Marshal(map[string]any{"k": s})
@@ -165,7 +178,7 @@ func c17GenString(r *rand.Rand) string {
 }
 
 func c17GenBytes(r *rand.Rand) []int {
-	n := []int{0, 1, 2, 3, 4, 5, 6, 7, 16, 31, 32, 33, 40}[r.Intn(13)]
+	n := []int{0, 1, 2, 3, 4, 5, 6, 7, 16, 31, 32, 33, 40, 47, 48, 49, 50, 56, 57, 58, 59, 100, 101}[r.Intn(23)]
 	if r.Intn(3) == 0 {
 		n = r.Intn(41)
 	}
@@ -250,12 +263,14 @@ func c17GenItems(r *rand.Rand, keys []string, maxN int, stringsOnly bool) []c17I
 	return out
 }
 
-func c17GenBins(r *rand.Rand, maxN int) []c17Bin {
+func c17GenBins(r *rand.Rand, maxN int) []c17Bin { return c17GenBinsOf(r, c17Keys, maxN) }
+
+func c17GenBinsOf(r *rand.Rand, keys []string, maxN int) []c17Bin {
 	n := r.Intn(maxN + 1)
 	seen := map[string]bool{}
 	out := []c17Bin{}
 	for i := 0; i < n; i++ {
-		k := pick(r, c17Keys)
+		k := pick(r, keys)
 		if seen[k] {
 			continue
 		}
@@ -265,10 +280,12 @@ func c17GenBins(r *rand.Rand, maxN int) []c17Bin {
 	return out
 }
 
-func c17GenEdits(r *rand.Rand, n int) []c17Edit {
+func c17GenEdits(r *rand.Rand, n int) []c17Edit { return c17GenEditsOf(r, c17Keys, n) }
+
+func c17GenEditsOf(r *rand.Rand, keys []string, n int) []c17Edit {
 	out := []c17Edit{}
 	for i := 0; i < n; i++ {
-		k := pick(r, c17Keys)
+		k := pick(r, keys)
 		switch r.Intn(4) {
 		case 0:
 			out = append(out, c17Edit{Op: "supdate", Key: k, S: c17GenString(r)})
@@ -289,8 +306,16 @@ func c17Run(c *Ctx) {
 	for i := 0; i < c.N(2500); i++ {
 		c.Tick()
 		kind := pick(r, kinds)
-		cs := c17Manifest{Kind: kind, Extra: c17GenExtra(r, kind), Text: c17GenItems(r, c17Keys, 5, false), Bin: c17GenBins(r, 4),
-			EmptySec: r.Intn(6) == 0, Via: pick(r, []string{"bytes", "bytes", "reader", "file"}), Edits: c17GenEdits(r, r.Intn(9))}
+		// item keys: the classic pool, or (one case in three) confusable / unusual spellings (c17_form.go)
+		keys := c17Keys
+		if r.Intn(3) == 0 {
+			keys = c17PickKeys(r)
+		}
+		cs := c17Manifest{Kind: kind, Extra: c17GenExtra(r, kind), Text: c17GenItems(r, keys, 5, false), Bin: c17GenBinsOf(r, keys, 4),
+			EmptySec: r.Intn(6) == 0, Via: pick(r, []string{"bytes", "bytes", "reader", "file"}), Edits: c17GenEditsOf(r, keys, r.Intn(9))}
+		if r.Intn(3) == 0 {
+			cs.Form = c17GenForm(r, cs.Text, cs.Bin)
+		}
 		c.Do("manifest", cs)
 	}
 	for i := 0; i < c.N(900); i++ {
@@ -695,6 +720,27 @@ func c17EvalManifest(c *Ctx, raw []byte) {
 	body, err := yaml.Marshal(root)
 	if err != nil {
 		panic(err)
+	}
+	if cs.Form != nil {
+		if fb, ok := c17FormBody(cs.Kind, cs.Extra, cs.Text, cs.Bin, cs.EmptySec, cs.Form); ok {
+			body = fb
+			c.Dist("form:written-by-hand")
+			for _, it := range cs.Bin {
+				bf := cs.Form.Bin[it.K]
+				lay := c17Layout(c17ToBytes(it.B), bf)
+				if strings.ContainsAny(lay, "\r\n") {
+					c.Dist(fmt.Sprintf("form:base64-with-line-breaks,len%%3=%d", len(it.B)%3))
+				}
+				if strings.HasSuffix(lay, "\n") {
+					c.Dist(fmt.Sprintf("form:base64-ends-in-line-break,len%%3=%d", len(it.B)%3))
+				}
+				if bf.Wrap >= 64 && len(lay) > bf.Wrap+2 {
+					c.Dist("form:base64-wrapped-at-64/76")
+				}
+			}
+		} else {
+			c.Dist("form:not-read-back-by-yaml.v3(default form used)")
+		}
 	}
 	if len(cs.Text)+len(cs.Bin) > 0 {
 		c.Nontrivial()
